@@ -1,1227 +1,175 @@
-// Review checks for the repairs 43fc4a8, 74a1ddb, 319b37f, b7cf7b5, 51c3376, 597c4a6.
+// Review of the repair 319b37f ("StartTLS during connection establishment fails instead of never
+// returning when the server closes the connection ... before the request has been picked up by
+// the connection task"), with the same root cause shown on an established connection (C04, and
+// the assumption behind b7cf7b5's "an operation that can't be sent gives its ID back").
 //
-// Every test talks to a scripted in-process TCP server which speaks raw LDAP bytes.
-// The BER helpers below are written independently of the library's codec.
+// WHAT HAPPENS
+//
+// new_tcp() spawns the connection task (single_op -> turn(SingleOp)) and then waits with
+//
+//     tokio::try_join!(rx.map_err(LdapError::from), ldap.extended(StartTLS))
+//
+// When the server has closed the connection, turn() sees the end of the stream with
+// op_received == false and - since 319b37f - returns Err("connection closed"); the connection
+// structure is dropped, and the repair counts on that drop to fail the StartTLS operation:
+// either op_call()'s tx.send() fails (receiver gone), or the queued request is destroyed
+// together with the receiver, which drops its oneshot sender and wakes op_call() with an error.
+//
+// There is a third outcome. If op_call()'s tx.send() runs WHILE the receiver is being dropped
+// (the connection task runs on a runtime worker, new_tcp() on the thread which called block_on /
+// #[tokio::main] - exactly the set-up of examples/search_starttls_noverify.rs), the send has
+// passed the "closed" check but has not published its slot yet when the receiver drains the
+// queue. tokio then keeps the message inside the channel until the LAST SENDER is gone
+// (tokio::sync::mpsc, chan.rs, Rx::drop: close(); drain what is readable now) - and the last
+// sender is the `ldap` handle which op_call() itself borrows while it waits for the answer.
+// send() returned Ok, the request is never read, its oneshot sender is never dropped:
+// ldap.extended(StartTLS) waits forever. The first half of the try_join! has long completed
+// with Ok(Err("connection closed")) - an Ok as far as try_join! is concerned, so the error which
+// the repair produces is never looked at.
+//
+// The same window exists for every operation on an established connection: one which is issued
+// while the connection task ends (drive() returning) is neither refused nor failed; it hangs for
+// good, because the handle it is invoked on keeps the channel alive.
+//
+// The window is narrow (about one in 10^4 attempts here), so each test repeats the scenario on
+// four threads until the first attempt that doesn't return, for at most BUDGET seconds; on this
+// machine (16 cores, debug build) the first one shows up after 0.1 to 9 s, in 30 of 30 runs.
+// At least two CPU cores are needed. Nothing but the public API is used.
 
-use std::collections::HashSet;
-use std::time::Duration;
+use std::sync::atomic::{AtomicBool, AtomicUsize, Ordering};
+use std::sync::{Arc, Mutex};
+use std::time::{Duration, Instant};
 
-use async_trait::async_trait;
-use ldap3::adapters::{Adapter, EntriesOnly, PagedResults, SoloMarker};
 use ldap3::exop::WhoAmI;
-use ldap3::result::{LdapError, LdapResult, Result};
-use ldap3::{
-    LdapConn, LdapConnAsync, LdapConnSettings, ResultEntry, Scope, SearchEntry, SearchOptions,
-    SearchStream,
-};
-use tokio::io::{AsyncReadExt, AsyncWriteExt};
-use tokio::net::{TcpListener, TcpStream};
+use ldap3::{LdapConnAsync, LdapConnSettings};
+use tokio::net::TcpListener;
 use tokio::time::timeout;
 
-// ---------------------------------------------------------------- BER helpers
+/// How long to keep trying before giving up (the test PASSES if no attempt hangs in that time).
+const BUDGET: Duration = Duration::from_secs(120);
+/// An attempt which has not returned after this long is taken for one that never returns.
+/// A normal attempt takes about 0.1 ms, all of it on the loopback interface.
+const HANG: Duration = Duration::from_secs(10);
+const THREADS: usize = 4;
 
-fn len_octets(n: usize) -> Vec<u8> {
-    if n < 128 {
-        vec![n as u8]
-    } else if n < 256 {
-        vec![0x81, n as u8]
-    } else {
-        vec![0x82, (n >> 8) as u8, n as u8]
-    }
+#[derive(Clone, Copy, PartialEq)]
+enum Scenario {
+    /// Connection establishment with StartTLS; no connection timeout is set.
+    StartTls,
+    /// A WhoAmI right after a plain connection has been set up and its driver spawned.
+    Established,
 }
 
-fn tlv(tag: u8, content: &[u8]) -> Vec<u8> {
-    let mut v = vec![tag];
-    v.extend(len_octets(content.len()));
-    v.extend_from_slice(content);
-    v
-}
-
-fn cat(parts: &[Vec<u8>]) -> Vec<u8> {
-    parts.iter().flat_map(|p| p.iter().copied()).collect()
-}
-
-fn int(tag: u8, v: i64) -> Vec<u8> {
-    let mut b = v.to_be_bytes().to_vec();
-    while b.len() > 1 && ((b[0] == 0 && b[1] & 0x80 == 0) || (b[0] == 0xff && b[1] & 0x80 != 0)) {
-        b.remove(0);
-    }
-    tlv(tag, &b)
-}
-
-fn ostr(s: &[u8]) -> Vec<u8> {
-    tlv(0x04, s)
-}
-
-/// LDAPResult components: resultCode, matchedDN, diagnosticMessage.
-fn result_body(rc: i64, matched: &str, text: &str) -> Vec<u8> {
-    cat(&[int(0x0a, rc), ostr(matched.as_bytes()), ostr(text.as_bytes())])
-}
-
-fn msg(id: i64, op: Vec<u8>) -> Vec<u8> {
-    tlv(0x30, &cat(&[int(0x02, id), op]))
-}
-
-fn msg_ctrl(id: i64, op: Vec<u8>, ctrls: Vec<u8>) -> Vec<u8> {
-    tlv(0x30, &cat(&[int(0x02, id), op, tlv(0xa0, &ctrls)]))
-}
-
-fn entry(id: i64, dn: &str) -> Vec<u8> {
-    let attr = tlv(
-        0x30,
-        &cat(&[ostr(b"cn"), tlv(0x31, &ostr(dn.as_bytes()))]),
-    );
-    msg(id, tlv(0x64, &cat(&[ostr(dn.as_bytes()), tlv(0x30, &attr)])))
-}
-
-fn search_done(id: i64, rc: i64) -> Vec<u8> {
-    msg(id, tlv(0x65, &result_body(rc, "", "")))
-}
-
-fn paged_ctrl(cookie: &[u8]) -> Vec<u8> {
-    let val = tlv(0x30, &cat(&[int(0x02, 0), ostr(cookie)]));
-    tlv(
-        0x30,
-        &cat(&[ostr(b"1.2.840.113556.1.4.319"), ostr(&val)]),
-    )
-}
-
-/// Read one element: (tag, content, rest).
-fn rd(b: &[u8]) -> (u8, &[u8], &[u8]) {
-    let tag = b[0];
-    let (len, hdr) = if b[1] < 128 {
-        (b[1] as usize, 2)
-    } else {
-        let n = (b[1] & 0x7f) as usize;
-        let mut l = 0usize;
-        for i in 0..n {
-            l = (l << 8) | b[2 + i] as usize;
-        }
-        (l, 2 + n)
-    };
-    (tag, &b[hdr..hdr + len], &b[hdr + len..])
-}
-
-fn uint(b: &[u8]) -> i64 {
-    b.iter().fold(0i64, |a, &o| (a << 8) | o as i64)
-}
-
-#[derive(Debug, Clone)]
-struct Req {
-    id: i64,
-    op: u8,
-    body: Vec<u8>,
-    ctrls: Option<Vec<u8>>,
-}
-
-#[derive(Debug, PartialEq)]
-struct SearchParams {
-    base: String,
-    scope: i64,
-    deref: i64,
-    sizelimit: i64,
-    timelimit: i64,
-    typesonly: bool,
-}
-
-impl Req {
-    fn search_params(&self) -> SearchParams {
-        assert_eq!(self.op, 0x63, "not a SearchRequest: {:?}", self);
-        let (_, base, r) = rd(&self.body);
-        let (_, scope, r) = rd(r);
-        let (_, deref, r) = rd(r);
-        let (_, size, r) = rd(r);
-        let (_, time, r) = rd(r);
-        let (_, types, _) = rd(r);
-        SearchParams {
-            base: String::from_utf8(base.to_vec()).unwrap(),
-            scope: uint(scope),
-            deref: uint(deref),
-            sizelimit: uint(size),
-            timelimit: uint(time),
-            typesonly: types[0] != 0,
-        }
-    }
-}
-
-async fn read_req(s: &mut TcpStream) -> Option<Req> {
-    let mut hdr = [0u8; 2];
-    if s.read_exact(&mut hdr).await.is_err() {
-        return None;
-    }
-    let mut raw = hdr.to_vec();
-    let len = if hdr[1] < 128 {
-        hdr[1] as usize
-    } else {
-        let n = (hdr[1] & 0x7f) as usize;
-        let mut lb = vec![0u8; n];
-        s.read_exact(&mut lb).await.ok()?;
-        raw.extend(&lb);
-        lb.iter().fold(0usize, |a, &o| (a << 8) | o as usize)
-    };
-    let mut body = vec![0u8; len];
-    s.read_exact(&mut body).await.ok()?;
-    raw.extend(&body);
-    let (_, content, _) = rd(&raw);
-    let (_, id, r) = rd(content);
-    let (op, opbody, r) = rd(r);
-    let ctrls = if r.is_empty() {
-        None
-    } else {
-        let (_, c, _) = rd(r);
-        Some(c.to_vec())
-    };
-    Some(Req {
-        id: uint(id),
-        op,
-        body: opbody.to_vec(),
-        ctrls,
-    })
-}
-
-async fn listen() -> (TcpListener, String) {
-    let l = TcpListener::bind("127.0.0.1:0").await.unwrap();
-    let url = format!("ldap://127.0.0.1:{}", l.local_addr().unwrap().port());
-    (l, url)
-}
-
-const T: Duration = Duration::from_secs(5);
-
-// ---------------------------------------------------------------- 43fc4a8
-
-/// Search options given to a non-Search operation are discarded (documented at
-/// Ldap::with_search_options), and a Search still gets the ones given to it.
-#[tokio::test]
-async fn search_options_async() {
-    let (l, url) = listen().await;
-    let srv = tokio::spawn(async move {
-        let (mut s, _) = l.accept().await.unwrap();
-        let mut seen = vec![];
-        while let Some(r) = read_req(&mut s).await {
-            match r.op {
-                0x6e => s
-                    .write_all(&msg(r.id, tlv(0x6f, &result_body(6, "", ""))))
-                    .await
-                    .unwrap(),
-                0x63 => s.write_all(&search_done(r.id, 0)).await.unwrap(),
-                0x77 => s
-                    .write_all(&msg(r.id, tlv(0x78, &result_body(0, "", ""))))
-                    .await
-                    .unwrap(),
-                _ => (),
-            }
-            seen.push(r);
-        }
-        seen
-    });
-    let (conn, mut ldap) = LdapConnAsync::new(&url).await.unwrap();
-    ldap3::drive!(conn);
-    let opts = SearchOptions::new().sizelimit(7).typesonly(true);
-    ldap.with_search_options(opts.clone())
-        .compare("cn=a", "cn", "a")
-        .await
-        .unwrap();
-    ldap.search("dc=one", Scope::Base, "(a=b)", vec!["cn"])
-        .await
-        .unwrap();
-    ldap.with_search_options(opts.clone())
-        .search("dc=two", Scope::Base, "(a=b)", vec!["cn"])
-        .await
-        .unwrap();
-    ldap.search("dc=three", Scope::Base, "(a=b)", vec!["cn"])
-        .await
-        .unwrap();
-    ldap.with_search_options(opts.clone())
-        .extended(WhoAmI)
-        .await
-        .unwrap();
-    ldap.search("dc=four", Scope::Base, "(a=b)", vec!["cn"])
-        .await
-        .unwrap();
-    // a filter which doesn't parse: the options must not survive the failed Search
-    assert!(ldap
-        .with_search_options(opts.clone())
-        .search("dc=bad", Scope::Base, "(a=b", vec!["cn"])
-        .await
-        .is_err());
-    ldap.search("dc=five", Scope::Base, "(a=b)", vec!["cn"])
-        .await
-        .unwrap();
-    drop(ldap);
-    let seen = timeout(T, srv).await.unwrap().unwrap();
-    let searches: Vec<_> = seen
-        .iter()
-        .filter(|r| r.op == 0x63)
-        .map(|r| r.search_params())
-        .collect();
-    let lim: Vec<_> = searches
-        .iter()
-        .map(|p| (p.base.clone(), p.sizelimit, p.typesonly))
-        .collect();
-    assert_eq!(
-        lim,
-        vec![
-            ("dc=one".to_string(), 0, false),
-            ("dc=two".to_string(), 7, true),
-            ("dc=three".to_string(), 0, false),
-            ("dc=four".to_string(), 0, false),
-            ("dc=five".to_string(), 0, false),
-        ],
-        "C02: search options affect exactly the next operation"
-    );
-}
-
-#[test]
-fn search_options_sync() {
-    let std_l = std::net::TcpListener::bind("127.0.0.1:0").unwrap();
-    let url = format!("ldap://127.0.0.1:{}", std_l.local_addr().unwrap().port());
-    let srv = std::thread::spawn(move || {
-        let rt = tokio::runtime::Builder::new_current_thread()
-            .enable_all()
-            .build()
-            .unwrap();
-        rt.block_on(async move {
-            std_l.set_nonblocking(true).unwrap();
-            let l = TcpListener::from_std(std_l).unwrap();
-            let (mut s, _) = l.accept().await.unwrap();
-            let mut seen = vec![];
-            while let Some(r) = read_req(&mut s).await {
-                match r.op {
-                    0x4a => s
-                        .write_all(&msg(r.id, tlv(0x6b, &result_body(0, "", ""))))
-                        .await
-                        .unwrap(),
-                    0x63 => {
-                        s.write_all(&entry(r.id, "cn=x")).await.unwrap();
-                        s.write_all(&search_done(r.id, 0)).await.unwrap()
+/// Returns (number of attempts made, number of the attempt which didn't return, if any).
+fn hammer(scenario: Scenario) -> (usize, Option<usize>) {
+    let stop = Arc::new(AtomicBool::new(false));
+    let count = Arc::new(AtomicUsize::new(0));
+    let stuck = Arc::new(Mutex::new(None));
+    let start = Instant::now();
+    let mut threads = vec![];
+    for _ in 0..THREADS {
+        let stop = stop.clone();
+        let count = count.clone();
+        let stuck = stuck.clone();
+        threads.push(std::thread::spawn(move || {
+            // The library's caller sits in block_on() of a multi-thread runtime, as under
+            // #[tokio::main]; what the library spawns runs on the workers.
+            let rt = tokio::runtime::Builder::new_multi_thread()
+                .worker_threads(2)
+                .enable_all()
+                .build()
+                .unwrap();
+            rt.block_on(async move {
+                let l = TcpListener::bind("127.0.0.1:0").await.unwrap();
+                let url = format!("ldap://127.0.0.1:{}", l.local_addr().unwrap().port());
+                // the server: accept, close at once
+                tokio::spawn(async move {
+                    loop {
+                        let (s, _) = l.accept().await.unwrap();
+                        drop(s);
                     }
-                    _ => (),
-                }
-                seen.push(r);
-            }
-            seen
-        })
-    });
-    let mut ldap = LdapConn::new(&url).unwrap();
-    let opts = SearchOptions::new().sizelimit(9);
-    ldap.with_search_options(opts.clone())
-        .delete("cn=a")
-        .unwrap();
-    {
-        let mut st = ldap
-            .streaming_search("dc=one", Scope::Base, "(a=b)", vec!["cn"])
-            .unwrap();
-        while let Some(_e) = st.next().unwrap() {}
-        assert_eq!(st.result().rc, 0);
-    }
-    {
-        let mut st = ldap
-            .with_search_options(opts.clone())
-            .streaming_search_with(EntriesOnly::new(), "dc=two", Scope::Base, "(a=b)", vec!["cn"])
-            .unwrap();
-        while let Some(_e) = st.next().unwrap() {}
-        assert_eq!(st.result().rc, 0);
-    }
-    ldap.search("dc=three", Scope::Base, "(a=b)", vec!["cn"])
-        .unwrap();
-    drop(ldap);
-    let seen = srv.join().unwrap();
-    let lim: Vec<_> = seen
-        .iter()
-        .filter(|r| r.op == 0x63)
-        .map(|r| r.search_params())
-        .map(|p| (p.base, p.sizelimit))
-        .collect();
-    assert_eq!(
-        lim,
-        vec![
-            ("dc=one".to_string(), 0),
-            ("dc=two".to_string(), 9),
-            ("dc=three".to_string(), 0)
-        ],
-        "C14/C02: the sync wrapper discards search options exactly like the async handle"
-    );
-}
-
-/// The options ride on every page of a paged search, in both adapter orders, and on nothing
-/// after it.
-#[tokio::test]
-async fn search_options_paged() {
-    for order in 0..2 {
-        let (l, url) = listen().await;
-        let srv = tokio::spawn(async move {
-            let (mut s, _) = l.accept().await.unwrap();
-            let mut seen = vec![];
-            let mut page = 0;
-            while let Some(r) = read_req(&mut s).await {
-                if r.op == 0x63 {
-                    let paged = r.ctrls.is_some();
-                    s.write_all(&entry(r.id, &format!("cn=e{}", page)))
-                        .await
-                        .unwrap();
-                    let cookie: &[u8] = if paged && page < 2 { b"ck" } else { b"" };
-                    let done = tlv(0x65, &result_body(0, "", ""));
-                    if paged {
-                        s.write_all(&msg_ctrl(r.id, done, paged_ctrl(cookie)))
-                            .await
-                            .unwrap();
-                    } else {
-                        s.write_all(&msg(r.id, done)).await.unwrap();
-                    }
-                    page += 1;
-                }
-                seen.push(r);
-            }
-            seen
-        });
-        let (conn, mut ldap) = LdapConnAsync::new(&url).await.unwrap();
-        ldap3::drive!(conn);
-        let adapters: Vec<Box<dyn Adapter<_, _>>> = if order == 0 {
-            vec![
-                Box::new(EntriesOnly::new()),
-                Box::new(PagedResults::new(1)),
-            ]
-        } else {
-            vec![
-                Box::new(PagedResults::new(1)),
-                Box::new(EntriesOnly::new()),
-            ]
-        };
-        let mut st = ldap
-            .with_search_options(SearchOptions::new().sizelimit(5).timelimit(3))
-            .streaming_search_with(adapters, "dc=p", Scope::Subtree, "(a=b)", vec!["cn"])
-            .await
-            .unwrap();
-        let mut dns = vec![];
-        while let Some(e) = st.next().await.unwrap() {
-            dns.push(SearchEntry::construct(e).dn);
-        }
-        let res = st.finish().await;
-        assert_eq!(res.rc, 0);
-        assert_eq!(dns, vec!["cn=e0", "cn=e1", "cn=e2"]);
-        ldap.search("dc=after", Scope::Base, "(a=b)", vec!["cn"])
-            .await
-            .unwrap();
-        drop(st);
-        drop(ldap);
-        let seen = timeout(T, srv).await.unwrap().unwrap();
-        let lim: Vec<_> = seen
-            .iter()
-            .filter(|r| r.op == 0x63)
-            .map(|r| r.search_params())
-            .map(|p| (p.base, p.sizelimit, p.timelimit))
-            .collect();
-        assert_eq!(
-            lim,
-            vec![
-                ("dc=p".to_string(), 5, 3),
-                ("dc=p".to_string(), 5, 3),
-                ("dc=p".to_string(), 5, 3),
-                ("dc=after".to_string(), 0, 0)
-            ],
-            "C16/C02 (adapter order {})",
-            order
-        );
-    }
-}
-
-// ---------------------------------------------------------------- 74a1ddb, 597c4a6, 51c3376
-
-/// One malformed answer per connection; the operation must fail with an error (no panic, no
-/// hang), a well-formed variant of the same answer must be accepted.
-#[tokio::test]
-async fn malformed_results() {
-    // (name, op body of the response, well-formed?)
-    let body_ok = result_body(0, "", "");
-    let cases: Vec<(&str, Vec<u8>, bool)> = vec![
-        ("plain success", body_ok.clone(), true),
-        (
-            "non-minimal length octets (X.690 8.1.3.5, legal in BER)",
-            cat(&[vec![0x0a, 0x81, 0x01, 0x00], vec![0x04, 0x82, 0x00, 0x00], ostr(b"")]),
-            true,
-        ),
-        (
-            "result code 128 needs a leading zero octet",
-            cat(&[vec![0x0a, 0x02, 0x00, 0x80], ostr(b""), ostr(b"")]),
-            true,
-        ),
-        (
-            "referral with URIs",
-            cat(&[
-                int(0x0a, 10),
-                ostr(b""),
-                ostr(b""),
-                tlv(0xa3, &cat(&[ostr(b"ldap://a/"), ostr(b"ldap://b/")])),
-            ]),
-            true,
-        ),
-        (
-            "unknown trailing element (extensibility, RFC 4511 4.)",
-            cat(&[body_ok.clone(), tlv(0x9f, b"x")]),
-            true,
-        ),
-        (
-            "ENUMERATED without content (597c4a6)",
-            cat(&[vec![0x0a, 0x00], ostr(b""), ostr(b"")]),
-            false,
-        ),
-        (
-            "length octet 0x80 on the diagnostic message (51c3376)",
-            cat(&[int(0x0a, 0), ostr(b""), vec![0x04, 0x80]]),
-            false,
-        ),
-        (
-            "result code of 9 octets",
-            cat(&[
-                vec![0x0a, 0x09, 1, 0, 0, 0, 0, 0, 0, 0, 0],
-                ostr(b""),
-                ostr(b""),
-            ]),
-            false,
-        ),
-        ("missing diagnostic message", cat(&[int(0x0a, 0), ostr(b"")]), false),
-        (
-            "diagnostic message not UTF-8",
-            cat(&[int(0x0a, 0), ostr(b""), ostr(&[0xff, 0xfe])]),
-            false,
-        ),
-        (
-            "primitive referral",
-            cat(&[body_ok.clone(), tlv(0x83, b"ldap://a/")]),
-            false,
-        ),
-        ("result code is an INTEGER", cat(&[int(0x02, 0), ostr(b""), ostr(b"")]), false),
-    ];
-    for (name, body, ok) in cases {
-        // kind 0: Delete (single result), 1: search() (EntriesOnly), 2: direct stream
-        for kind in 0..3 {
-            let (l, url) = listen().await;
-            let body2 = body.clone();
-            let srv = tokio::spawn(async move {
-                let (mut s, _) = l.accept().await.unwrap();
-                let mut n = 0;
-                while let Some(r) = read_req(&mut s).await {
-                    n += 1;
-                    let tag = match r.op {
-                        0x4a => 0x6b,
-                        0x63 => 0x65,
-                        0x77 => 0x78,
-                        _ => continue,
-                    };
-                    // the second request on the connection always gets a good answer
-                    let b = if n == 1 { body2.clone() } else { result_body(0, "", "") };
-                    if s.write_all(&msg(r.id, tlv(tag, &b))).await.is_err() {
-                        break;
-                    }
-                }
-            });
-            let (conn, mut ldap) = LdapConnAsync::new(&url).await.unwrap();
-            ldap3::drive!(conn);
-            let what = format!("{} / kind {}", name, kind);
-            let got_ok = match kind {
-                0 => timeout(T, ldap.delete("cn=x"))
-                    .await
-                    .unwrap_or_else(|_| panic!("C04: delete hangs: {}", what))
-                    .is_ok(),
-                1 => timeout(T, ldap.search("dc=x", Scope::Base, "(a=b)", vec!["cn"]))
-                    .await
-                    .unwrap_or_else(|_| panic!("C04: search hangs: {}", what))
-                    .map(|r| r.1.rc == 0 || r.1.rc == 10 || r.1.rc == 128)
-                    .unwrap_or(false),
-                _ => {
-                    let mut st = ldap
-                        .streaming_search("dc=x", Scope::Base, "(a=b)", vec!["cn"])
-                        .await
-                        .unwrap();
-                    let n = timeout(T, st.next())
-                        .await
-                        .unwrap_or_else(|_| panic!("C04: next hangs: {}", what));
-                    let res = st.finish().await;
-                    match n {
-                        Ok(None) => res.rc != 88,
-                        Ok(Some(_)) => panic!("an entry out of nowhere: {}", what),
-                        Err(_) => {
-                            assert_eq!(res.rc, 88, "C10: finish() after a failure: {}", what);
-                            false
+                });
+                while !stop.load(Ordering::Relaxed) && start.elapsed() < BUDGET {
+                    let n = count.fetch_add(1, Ordering::Relaxed) + 1;
+                    let returned = match scenario {
+                        Scenario::StartTls => {
+                            let settings = LdapConnSettings::new()
+                                .set_starttls(true)
+                                .set_no_tls_verify(true);
+                            match timeout(HANG, LdapConnAsync::with_settings(settings, &url)).await
+                            {
+                                Ok(Ok(_)) => panic!(
+                                    "C17: a handle was handed back although no TLS session exists"
+                                ),
+                                Ok(Err(_)) => true,
+                                Err(_) => false,
+                            }
                         }
-                    }
-                }
-            };
-            assert_eq!(
-                got_ok, ok,
-                "C03/C11: {}: expected the response to be {}",
-                what,
-                if ok { "accepted" } else { "refused with an error" }
-            );
-            if kind == 0 && !ok && !body.ends_with(&[0x04, 0x80]) {
-                // A malformed LDAPResult in a well-formed envelope fails that operation only.
-                let r = timeout(T, ldap.extended(WhoAmI))
-                    .await
-                    .unwrap_or_else(|_| panic!("C04: op after a malformed result hangs: {}", what));
-                assert!(r.is_ok(), "the connection should still serve: {}: {:?}", what, r);
-            }
-            drop(ldap);
-            let _ = timeout(T, srv).await;
-        }
-    }
-}
-
-// ---------------------------------------------------------------- 319b37f, 597c4a6 (StartTLS)
-
-/// Connection establishment with StartTLS must fail, in bounded time and without a connection
-/// timeout being set, for every server behaviour short of a successful handshake (C17, C18).
-#[tokio::test(flavor = "multi_thread", worker_threads = 4)]
-async fn starttls_failures() {
-    // 0: close at once; 1: unsolicited message, then close; 2: unsolicited message at once, wait for
-    // the request, close; 3: answer with an ENUMERATED without content; 4: answer rc=2;
-    // 5: answer success with a non-TLS peer (handshake fails); 6: answer under another ID, close;
-    // 7: IntermediateResponse then close; 8: malformed result
-    for case in 0..9 {
-        for _rep in 0..20 {
-            let (l, url) = listen().await;
-            let srv = tokio::spawn(async move {
-                let (mut s, _) = l.accept().await.unwrap();
-                let nod = msg(
-                    0,
-                    tlv(
-                        0x78,
-                        &cat(&[result_body(52, "", "bye"), tlv(0x8a, b"1.3.6.1.4.1.1466.20036")]),
-                    ),
-                );
-                match case {
-                    0 => (),
-                    1 => {
-                        let _ = s.write_all(&nod).await;
-                    }
-                    2 => {
-                        let _ = s.write_all(&nod).await;
-                        let _ = read_req(&mut s).await;
-                    }
-                    3 => {
-                        let r = read_req(&mut s).await.unwrap();
-                        let b = cat(&[vec![0x0a, 0x00], ostr(b""), ostr(b"")]);
-                        let _ = s.write_all(&msg(r.id, tlv(0x78, &b))).await;
-                        let mut buf = [0u8; 64];
-                        let _ = timeout(Duration::from_millis(300), s.read(&mut buf)).await;
-                    }
-                    4 => {
-                        let r = read_req(&mut s).await.unwrap();
-                        let _ = s
-                            .write_all(&msg(r.id, tlv(0x78, &result_body(2, "", "no"))))
-                            .await;
-                        let mut buf = [0u8; 64];
-                        let _ = timeout(Duration::from_millis(300), s.read(&mut buf)).await;
-                    }
-                    5 => {
-                        let r = read_req(&mut s).await.unwrap();
-                        let _ = s
-                            .write_all(&msg(r.id, tlv(0x78, &result_body(0, "", ""))))
-                            .await;
-                        // then answer the ClientHello with LDAP bytes
-                        let mut buf = [0u8; 16];
-                        let _ = s.read(&mut buf).await;
-                        let _ = s
-                            .write_all(&msg(2, tlv(0x61, &result_body(0, "", ""))))
-                            .await;
-                    }
-                    6 => {
-                        let r = read_req(&mut s).await.unwrap();
-                        let _ = s
-                            .write_all(&msg(r.id + 1, tlv(0x78, &result_body(0, "", ""))))
-                            .await;
-                    }
-                    7 => {
-                        let r = read_req(&mut s).await.unwrap();
-                        let _ = s.write_all(&msg(r.id, tlv(0x79, &[]))).await;
-                    }
-                    _ => {
-                        let r = read_req(&mut s).await.unwrap();
-                        let _ = s
-                            .write_all(&msg(r.id, tlv(0x78, &cat(&[int(0x0a, 0), ostr(b"")]))))
-                            .await;
-                        let mut buf = [0u8; 64];
-                        let _ = timeout(Duration::from_millis(300), s.read(&mut buf)).await;
+                        Scenario::Established => {
+                            let (conn, mut ldap) = LdapConnAsync::new(&url).await.unwrap();
+                            ldap3::drive!(conn);
+                            match timeout(HANG, ldap.extended(WhoAmI)).await {
+                                Ok(Ok(_)) => panic!("C03: an answer which no server has sent"),
+                                Ok(Err(_)) => true,
+                                Err(_) => false,
+                            }
+                        }
+                    };
+                    if !returned {
+                        stuck.lock().unwrap().get_or_insert(n);
+                        stop.store(true, Ordering::Relaxed);
                     }
                 }
             });
-            let settings = LdapConnSettings::new()
-                .set_starttls(true)
-                .set_no_tls_verify(true);
-            let res = timeout(T, LdapConnAsync::with_settings(settings, &url)).await;
-            match res {
-                Err(_) => panic!(
-                    "C04/C18: StartTLS establishment never returns (server behaviour {})",
-                    case
-                ),
-                Ok(Ok(_)) => panic!(
-                    "C17: establishment handed back a handle although TLS was not set up (server behaviour {})",
-                    case
-                ),
-                Ok(Err(_)) => (),
-            }
-            let _ = timeout(T, srv).await;
-        }
+            rt.shutdown_background();
+        }));
     }
+    for t in threads {
+        t.join().unwrap();
+    }
+    let stuck = *stuck.lock().unwrap();
+    (count.load(Ordering::Relaxed), stuck)
 }
 
-/// The same through the sync constructor.
 #[test]
-fn starttls_failures_sync() {
-    for case in 0..3 {
-        let std_l = std::net::TcpListener::bind("127.0.0.1:0").unwrap();
-        let url = format!("ldap://127.0.0.1:{}", std_l.local_addr().unwrap().port());
-        let srv = std::thread::spawn(move || {
-            use std::io::{Read, Write};
-            let (mut s, _) = std_l.accept().unwrap();
-            let nod = msg(0, tlv(0x78, &result_body(52, "", "bye")));
-            match case {
-                0 => (),
-                1 => {
-                    let _ = s.write_all(&nod);
-                }
-                _ => {
-                    let mut buf = [0u8; 128];
-                    let _ = s.read(&mut buf);
-                    let b = cat(&[vec![0x0a, 0x00], ostr(b""), ostr(b"")]);
-                    let _ = s.write_all(&msg(1, tlv(0x78, &b)));
-                    s.set_read_timeout(Some(Duration::from_millis(300))).unwrap();
-                    let _ = s.read(&mut buf);
-                }
-            }
-        });
-        let (tx, rx) = std::sync::mpsc::channel();
-        std::thread::spawn(move || {
-            let settings = LdapConnSettings::new()
-                .set_starttls(true)
-                .set_no_tls_verify(true);
-            let r = LdapConn::with_settings(settings, &url).map(|_| ());
-            let _ = tx.send(r);
-        });
-        match rx.recv_timeout(T) {
-            Err(_) => panic!("C14/C04: the sync constructor never returns (case {})", case),
-            Ok(Ok(())) => panic!("C17: cleartext handle handed back (case {})", case),
-            Ok(Err(_)) => (),
-        }
-        srv.join().unwrap();
-    }
-}
-
-// ---------------------------------------------------------------- b7cf7b5 and user-written adapters
-
-/// Fails with an error of its own after `n` entries.
-#[derive(Clone, Debug)]
-struct FailAfter(usize);
-impl SoloMarker for FailAfter {}
-
-#[async_trait]
-impl<'a, S, A> Adapter<'a, S, A> for FailAfter
-where
-    S: AsRef<str> + Send + Sync + 'a,
-    A: AsRef<[S]> + Send + Sync + 'a,
-{
-    async fn start(
-        &mut self,
-        stream: &mut SearchStream<'a, S, A>,
-        base: &str,
-        scope: Scope,
-        filter: &str,
-        attrs: A,
-    ) -> Result<()> {
-        stream.start(base, scope, filter, attrs).await
-    }
-    async fn next(&mut self, stream: &mut SearchStream<'a, S, A>) -> Result<Option<ResultEntry>> {
-        if self.0 == 0 {
-            return Err(LdapError::AdapterInit(String::from("enough")));
-        }
-        self.0 -= 1;
-        stream.next().await
-    }
-    async fn finish(&mut self, stream: &mut SearchStream<'a, S, A>) -> LdapResult {
-        stream.finish().await
-    }
-}
-
-/// Wraps every call up the chain in a timeout, and retries next() once.
-#[derive(Clone, Debug)]
-struct Tick(Duration);
-impl SoloMarker for Tick {}
-
-#[async_trait]
-impl<'a, S, A> Adapter<'a, S, A> for Tick
-where
-    S: AsRef<str> + Send + Sync + 'a,
-    A: AsRef<[S]> + Send + Sync + 'a,
-{
-    async fn start(
-        &mut self,
-        stream: &mut SearchStream<'a, S, A>,
-        base: &str,
-        scope: Scope,
-        filter: &str,
-        attrs: A,
-    ) -> Result<()> {
-        match timeout(T, stream.start(base, scope, filter, attrs)).await {
-            Ok(r) => r,
-            Err(_) => Err(LdapError::AdapterInit(String::from("start: tick"))),
-        }
-    }
-    async fn next(&mut self, stream: &mut SearchStream<'a, S, A>) -> Result<Option<ResultEntry>> {
-        for _ in 0..2 {
-            if let Ok(r) = timeout(self.0, stream.next()).await {
-                return r;
-            }
-        }
-        Err(LdapError::AdapterInit(String::from("next: tick")))
-    }
-    async fn finish(&mut self, stream: &mut SearchStream<'a, S, A>) -> LdapResult {
-        stream.finish().await
-    }
-}
-
-/// After the server has gone away everything pending fails, later operations fail at once, and
-/// a connection which is then re-used for nothing leaves nothing hanging (C04).
-#[tokio::test]
-async fn connection_gone() {
-    let (l, url) = listen().await;
-    let srv = tokio::spawn(async move {
-        let (mut s, _) = l.accept().await.unwrap();
-        // answer the first search with one entry, swallow two more requests, then close
-        let r = read_req(&mut s).await.unwrap();
-        s.write_all(&entry(r.id, "cn=one")).await.unwrap();
-        let _ = read_req(&mut s).await.unwrap();
-        let _ = read_req(&mut s).await.unwrap();
-    });
-    let (conn, mut ldap) = LdapConnAsync::new(&url).await.unwrap();
-    let drv = tokio::spawn(conn.drive());
-    let mut st = ldap
-        .streaming_search_with(
-            Tick(Duration::from_secs(2)),
-            "dc=x",
-            Scope::Subtree,
-            "(a=b)",
-            vec!["cn"],
-        )
-        .await
-        .unwrap();
-    assert!(st.next().await.unwrap().is_some());
-    let mut l2 = ldap.clone();
-    let mut l3 = ldap.clone();
-    let (a, b, c) = tokio::join!(
-        timeout(T, st.next()),
-        timeout(T, l2.delete("cn=a")),
-        timeout(T, l3.compare("cn=a", "cn", "a")),
+fn starttls_establishment_returns_when_the_server_closes_at_once() {
+    let (attempts, stuck) = hammer(Scenario::StartTls);
+    assert!(
+        stuck.is_none(),
+        "EXPECTED: LdapConnAsync::with_settings(starttls = true) returns an error every time the \
+         server closes the connection right after accepting it - property C04 (every operation \
+         terminates; losing the connection fails all pending work), C18 (unreachable endpoints \
+         return an error), and the statement of repair 319b37f itself: 'StartTLS during connection \
+         establishment fails instead of never returning when the server closes the connection ... \
+         before the request has been picked up by the connection task'. \
+         GOT: attempt {} of {} had not returned after {:?} (no connection timeout was set, so it \
+         never will): the connection task has ended with 'connection closed' and dropped the \
+         connection, but new_tcp() still waits in try_join! for ldap.extended(StartTLS), whose \
+         request was queued while the operation channel's receiver was being dropped - send() \
+         said Ok, nobody will read it, and the handle which waits for the answer is the sender \
+         that keeps the channel (and the request's result sender) alive.",
+        stuck.unwrap(),
+        attempts,
+        HANG
     );
-    assert!(a.expect("C04: next() hangs").is_err());
-    assert!(b.expect("C04: delete hangs").is_err());
-    assert!(c.expect("C04: compare hangs").is_err());
-    assert_eq!(st.finish().await.rc, 88);
-    assert_eq!(st.finish().await.rc, 80);
-    let _ = timeout(T, drv).await.expect("C04: the driver doesn't end");
-    for _ in 0..3 {
-        assert!(timeout(T, ldap.delete("cn=a")).await.unwrap().is_err());
-        assert!(timeout(
-            T,
-            ldap.with_timeout(Duration::from_millis(50))
-                .search("dc=x", Scope::Base, "(a=b)", vec!["cn"])
-        )
-        .await
-        .unwrap()
-        .is_err());
-    }
-    assert!(ldap.is_closed());
-    let _ = srv.await;
 }
 
-/// IDs and routing with operations given up before the driver has seen them, with user-written
-/// adapters on top (C01, C12, C13): every later operation still gets its own answer.
-#[tokio::test]
-async fn given_up_operations() {
-    let (l, url) = listen().await;
-    let srv = tokio::spawn(async move {
-        let (mut s, _) = l.accept().await.unwrap();
-        let mut ids = vec![];
-        while let Some(r) = read_req(&mut s).await {
-            ids.push((r.op, r.id));
-            match r.op {
-                // Delete: answer late, with the DN in the diagnostic text
-                0x4a => {
-                    let dn = String::from_utf8(r.body.clone()).unwrap();
-                    tokio::time::sleep(Duration::from_millis(30)).await;
-                    s.write_all(&msg(r.id, tlv(0x6b, &result_body(0, "", &dn))))
-                        .await
-                        .unwrap()
-                }
-                0x63 => {
-                    let p = r.search_params();
-                    s.write_all(&entry(r.id, &format!("cn=1,{}", p.base)))
-                        .await
-                        .unwrap();
-                    s.write_all(&entry(r.id, &format!("cn=2,{}", p.base)))
-                        .await
-                        .unwrap();
-                    s.write_all(&search_done(r.id, 0)).await.unwrap();
-                }
-                _ => (),
-            }
-        }
-        ids
-    });
-    let (conn, mut ldap) = LdapConnAsync::new(&url).await.unwrap();
-    ldap3::drive!(conn);
-    for round in 0..20 {
-        // given up by the library's own timeout, and by the caller dropping the future
-        let r = ldap
-            .with_timeout(Duration::ZERO)
-            .delete(&format!("cn=t{}", round))
-            .await;
-        assert!(r.is_err());
-        let r = timeout(Duration::ZERO, ldap.delete(&format!("cn=d{}", round))).await;
-        assert!(r.is_err());
-        let r = ldap
-            .with_timeout(Duration::ZERO)
-            .streaming_search_with(
-                FailAfter(1),
-                &format!("dc=t{}", round),
-                Scope::Subtree,
-                "(a=b)",
-                vec!["cn"],
-            )
-            .await;
-        if let Ok(mut st) = r {
-            let _ = st.next().await;
-            let _ = st.next().await;
-            let _ = st.finish().await;
-        }
-        // then the real work
-        let dn = format!("cn=real{}", round);
-        let res = timeout(T, ldap.delete(&dn)).await.unwrap().unwrap();
-        assert_eq!(res.text, dn, "C01: a Delete got another operation's answer");
-        let base = format!("dc=real{}", round);
-        let mut st = ldap
-            .streaming_search_with(
-                vec![
-                    Box::new(Tick(Duration::from_secs(2))) as Box<dyn Adapter<_, _>>,
-                    Box::new(FailAfter(1)),
-                ],
-                &base,
-                Scope::Subtree,
-                "(a=b)",
-                vec!["cn"],
-            )
-            .await
-            .unwrap();
-        let e = st.next().await.unwrap().unwrap();
-        assert_eq!(SearchEntry::construct(e).dn, format!("cn=1,{}", base));
-        assert!(st.next().await.is_err());
-        assert_eq!(st.finish().await.rc, 88);
-        let (es, res) = ldap
-            .search(&base, Scope::Subtree, "(a=b)", vec!["cn"])
-            .await
-            .unwrap()
-            .success()
-            .unwrap();
-        assert_eq!(es.len(), 2, "C10: search() lost or gained entries");
-        assert_eq!(res.rc, 0);
-    }
-    drop(ldap);
-    let ids = timeout(T, srv).await.unwrap().unwrap();
-    let mut seen = HashSet::new();
-    for (_, id) in &ids {
-        assert!(
-            *id >= 1 && seen.insert(*id),
-            "C05: message ID {} used twice in {:?}",
-            id,
-            ids
-        );
-    }
-}
-
-// ---------------------------------------------------------------- with the verification hooks only
-
-#[cfg(ldap3_verif)]
-mod hooks {
-    use super::*;
-
-    async fn settle(ldap: &ldap3::Ldap, what: &str) {
-        for _ in 0..200 {
-            if ldap.verif_id_table().1.is_empty() {
-                return;
-            }
-            tokio::time::sleep(Duration::from_millis(10)).await;
-        }
-        panic!("C13: IDs still reserved with nothing outstanding ({}): {:?}", what, ldap.verif_id_table());
-    }
-
-    #[tokio::test]
-    async fn id_table_after_given_up_ops() {
-        let (l, url) = listen().await;
-        let srv = tokio::spawn(async move {
-            let (mut s, _) = l.accept().await.unwrap();
-            while let Some(r) = read_req(&mut s).await {
-                match r.op {
-                    0x4a => {
-                        tokio::time::sleep(Duration::from_millis(20)).await;
-                        s.write_all(&msg(r.id, tlv(0x6b, &result_body(0, "", "")))).await.unwrap()
-                    }
-                    0x63 => {
-                        s.write_all(&entry(r.id, "cn=1")).await.unwrap();
-                        s.write_all(&entry(r.id, "cn=2")).await.unwrap();
-                        s.write_all(&search_done(r.id, 0)).await.unwrap();
-                    }
-                    _ => (),
-                }
-            }
-        });
-        let (conn, mut ldap) = LdapConnAsync::new(&url).await.unwrap();
-        let gauges = conn.verif_gauges();
-        ldap3::drive!(conn);
-        for round in 0..10 {
-            let _ = ldap.with_timeout(Duration::ZERO).delete("cn=t").await;
-            settle(&ldap, "library timeout, single").await;
-            let _ = timeout(Duration::ZERO, ldap.delete("cn=d")).await;
-            settle(&ldap, "dropped future, single").await;
-            let r = ldap
-                .with_timeout(Duration::ZERO)
-                .streaming_search("dc=t", Scope::Subtree, "(a=b)", vec!["cn"])
-                .await;
-            if let Ok(mut st) = r {
-                let _ = st.next().await;
-                let _ = st.finish().await;
-            }
-            settle(&ldap, "library timeout, search").await;
-            let r = timeout(
-                Duration::ZERO,
-                ldap.streaming_search("dc=t", Scope::Subtree, "(a=b)", vec!["cn"]),
-            )
-            .await;
-            if let Ok(Ok(mut st)) = r {
-                let _ = st.finish().await;
-            }
-            settle(&ldap, "dropped future, search start").await;
-            // adapters failing on their own, finishing early, timing out
-            let mut st = ldap
-                .streaming_search_with(FailAfter(1), "dc=f", Scope::Subtree, "(a=b)", vec!["cn"])
-                .await
-                .unwrap();
-            let _ = st.next().await;
-            assert!(st.next().await.is_err());
-            let _ = st.finish().await;
-            settle(&ldap, "FailAfter").await;
-            let mut st = ldap
-                .streaming_search_with(
-                    vec![
-                        Box::new(PagedResults::new(2)) as Box<dyn Adapter<_, _>>,
-                        Box::new(Tick(Duration::from_secs(1))),
-                        Box::new(FailAfter(round % 3)),
-                    ],
-                    "dc=f",
-                    Scope::Subtree,
-                    "(a=b)",
-                    vec!["cn"],
-                )
-                .await
-                .unwrap();
-            while let Ok(Some(_)) = st.next().await {}
-            let _ = st.finish().await;
-            settle(&ldap, "Paged/Tick/FailAfter").await;
-            let mut st = ldap
-                .streaming_search("dc=f", Scope::Subtree, "(a=b)", vec!["cn"])
-                .await
-                .unwrap();
-            let _ = st.next().await;
-            drop(st);
-            // a dropped stream is cleaned up when the next item for it arrives
-            settle(&ldap, "dropped stream").await;
-        }
-        tokio::time::sleep(Duration::from_millis(100)).await;
-        // one more turn of the driver so that the gauges are fresh
-        let _ = ldap.delete("cn=z").await;
-        let _ = ldap.delete("cn=z").await;
-        let g = gauges.lock().unwrap().clone();
-        assert!(g.1.is_empty(), "C13: search routing state left behind: {:?}", g);
-        drop(ldap);
-        let _ = timeout(T, srv).await;
-    }
-
-    #[tokio::test]
-    async fn id_table_after_connection_end() {
-        for how in 0..3 {
-            let (l, url) = listen().await;
-            let srv = tokio::spawn(async move {
-                let (mut s, _) = l.accept().await.unwrap();
-                let _ = read_req(&mut s).await;
-                let _ = read_req(&mut s).await;
-                if how == 1 {
-                    let _ = s.write_all(&[0x30, 0x80]).await;
-                    tokio::time::sleep(Duration::from_millis(100)).await;
-                }
-                if how == 2 {
-                    while read_req(&mut s).await.is_some() {}
-                }
-            });
-            let (conn, mut ldap) = LdapConnAsync::new(&url).await.unwrap();
-            let drv = tokio::spawn(conn.drive());
-            let mut l2 = ldap.clone();
-            let mut l3 = ldap.clone();
-            let unbind = async {
-                if how == 2 {
-                    tokio::time::sleep(Duration::from_millis(50)).await;
-                    let _ = l3.unbind().await;
-                }
-            };
-            let (a, b, _) = tokio::join!(
-                timeout(T, ldap.delete("cn=a")),
-                timeout(T, l2.search("dc=x", Scope::Base, "(a=b)", vec!["cn"])),
-                unbind
-            );
-            assert!(a.unwrap().is_err());
-            assert!(b.unwrap().is_err());
-            let _ = timeout(T, drv).await.expect("driver ends");
-            assert!(
-                ldap.verif_id_table().1.is_empty(),
-                "C13: IDs reserved on a dead connection (how={}): {:?}",
-                how,
-                ldap.verif_id_table()
-            );
-            let _ = ldap.delete("cn=b").await;
-            let _ = ldap.streaming_search("dc=x", Scope::Base, "(a=b)", vec!["cn"]).await;
-            assert!(ldap.verif_id_table().1.is_empty());
-            let _ = timeout(T, srv).await;
-        }
-    }
-}
-
-/// C18: the connection timeout bounds the whole establishment, StartTLS exchange and handshake
-/// included, in the async and in the sync constructor.
 #[test]
-fn starttls_conn_timeout() {
-    for case in 0..2 {
-        for sync in [false, true] {
-            let std_l = std::net::TcpListener::bind("127.0.0.1:0").unwrap();
-            let url = format!("ldap://127.0.0.1:{}", std_l.local_addr().unwrap().port());
-            let (stop_tx, stop_rx) = std::sync::mpsc::channel::<()>();
-            let srv = std::thread::spawn(move || {
-                use std::io::{Read, Write};
-                let (mut s, _) = std_l.accept().unwrap();
-                let mut buf = [0u8; 128];
-                let _ = s.read(&mut buf);
-                if case == 1 {
-                    // success, then silence during the handshake
-                    let _ = s.write_all(&msg(1, tlv(0x78, &result_body(0, "", ""))));
-                }
-                let _ = stop_rx.recv_timeout(Duration::from_secs(10));
-            });
-            let (tx, rx) = std::sync::mpsc::channel();
-            std::thread::spawn(move || {
-                let settings = LdapConnSettings::new()
-                    .set_starttls(true)
-                    .set_no_tls_verify(true)
-                    .set_conn_timeout(Duration::from_millis(300));
-                let r = if sync {
-                    LdapConn::with_settings(settings, &url).map(|_| ())
-                } else {
-                    let rt = tokio::runtime::Builder::new_multi_thread()
-                        .enable_all()
-                        .build()
-                        .unwrap();
-                    rt.block_on(LdapConnAsync::with_settings(settings, &url))
-                        .map(|_| ())
-                };
-                let _ = tx.send(r);
-            });
-            match rx.recv_timeout(T) {
-                Err(_) => panic!("C18: no connection timeout (case {}, sync {})", case, sync),
-                Ok(Ok(())) => panic!("C17: handle handed back (case {}, sync {})", case, sync),
-                Ok(Err(_)) => (),
-            }
-            let _ = stop_tx.send(());
-            srv.join().unwrap();
-        }
-    }
-}
-
-/// 319b37f, success path: a real TLS peer (native-tls acceptor with the key pair under data/tls).
-/// Whatever the server sends in the clear around the StartTLS response, the session which comes
-/// out is protected and uncontaminated (C17), and usable (C04).
-#[tokio::test(flavor = "multi_thread", worker_threads = 4)]
-async fn starttls_success_paths() {
-    let cert = std::fs::read(concat!(env!("CARGO_MANIFEST_DIR"), "/data/tls/cert.pem")).unwrap();
-    let key = std::fs::read(concat!(env!("CARGO_MANIFEST_DIR"), "/data/tls/key.pem")).unwrap();
-    for case in 0..4 {
-        for _rep in 0..5 {
-            let ident = native_tls::Identity::from_pkcs8(&cert, &key).unwrap();
-            let acceptor =
-                tokio_native_tls::TlsAcceptor::from(native_tls::TlsAcceptor::new(ident).unwrap());
-            let (l, url) = listen().await;
-            let srv = tokio::spawn(async move {
-                let (mut s, _) = l.accept().await.unwrap();
-                let nod = msg(0, tlv(0x78, &result_body(52, "", "hello")));
-                if case == 1 {
-                    s.write_all(&nod).await.unwrap();
-                }
-                let r = read_req(&mut s).await.unwrap();
-                assert_eq!(r.op, 0x77);
-                let mut out = vec![];
-                if case == 3 {
-                    out.extend(msg(r.id, tlv(0x79, &[])));
-                }
-                out.extend(msg(r.id, tlv(0x78, &result_body(0, "", ""))));
-                if case == 2 {
-                    // injected: a successful BindResponse for the ID the client will use next
-                    out.extend(msg(r.id + 1, tlv(0x61, &result_body(0, "", "injected"))));
-                }
-                s.write_all(&out).await.unwrap();
-                let mut tls = match acceptor.accept(s).await {
-                    Ok(t) => t,
-                    Err(_) => return,
-                };
-                // one request over TLS: a Bind, refused
-                let mut hdr = [0u8; 2];
-                if tls.read_exact(&mut hdr).await.is_err() {
-                    return;
-                }
-                let mut body = vec![0u8; hdr[1] as usize];
-                tls.read_exact(&mut body).await.unwrap();
-                let (_, id, _) = rd(&body);
-                let id = uint(id);
-                tls.write_all(&msg(id, tlv(0x61, &result_body(49, "", "over tls"))))
-                    .await
-                    .unwrap();
-                let mut buf = [0u8; 64];
-                let _ = timeout(Duration::from_millis(500), tls.read(&mut buf)).await;
-            });
-            let settings = LdapConnSettings::new()
-                .set_starttls(true)
-                .set_no_tls_verify(true);
-            let res = timeout(T, LdapConnAsync::with_settings(settings, &url))
-                .await
-                .unwrap_or_else(|_| panic!("C04: establishment hangs (case {})", case));
-            let (conn, mut ldap) = match res {
-                Ok(p) => p,
-                Err(e) => {
-                    // refusing the connection is a safe answer to injected bytes
-                    assert!(case == 2, "establishment failed (case {}): {:?}", case, e);
-                    let _ = timeout(T, srv).await;
-                    continue;
-                }
-            };
-            ldap3::drive!(conn);
-            let r = timeout(T, ldap.simple_bind("cn=x", "pw"))
-                .await
-                .unwrap_or_else(|_| panic!("C04: bind over TLS hangs (case {})", case));
-            match r {
-                Ok(res) => {
-                    assert_eq!(
-                        (res.rc, res.text.as_str()),
-                        (49, "over tls"),
-                        "C17: the Bind was answered by bytes sent in the clear (case {})",
-                        case
-                    );
-                }
-                Err(e) => assert!(case == 2, "bind failed (case {}): {:?}", case, e),
-            }
-            drop(ldap);
-            let _ = timeout(T, srv).await;
-        }
-    }
+fn operation_issued_while_the_connection_task_ends_returns() {
+    let (attempts, stuck) = hammer(Scenario::Established);
+    assert!(
+        stuck.is_none(),
+        "EXPECTED: an operation invoked on a handle whose server has just closed the connection \
+         returns an error - property C04: 'when the server closes or resets the connection ... \
+         each operation or stream still waiting for a response returns an error (it never hangs) \
+         ... and later operations on the handle fail immediately'; b7cf7b5 assumes the same two \
+         outcomes (the send fails, or the queued operation is failed by the connection's end). \
+         GOT: the WhoAmI of attempt {} of {} had not returned after {:?} (no timeout was set on \
+         it, so it never will): its request entered the operation channel while drive() was \
+         dropping the receiver, was neither refused nor destroyed with it, and the waiting handle \
+         itself keeps the channel alive.",
+        stuck.unwrap(),
+        attempts,
+        HANG
+    );
 }
